@@ -30,7 +30,7 @@ def can_demote():
 
 class World:
     def __init__(self, b, root, idx, pool, unpriv):
-        self.b, self.unpriv = b, unpriv
+        self.b, self.unpriv, self.idx = b, unpriv, idx
         self.d = tempfile.mkdtemp(prefix="c11-%d-" % idx, dir=root)
         os.chmod(self.d, 0o777)
         self.kdir = os.path.join(self.d, "keys")
@@ -93,7 +93,8 @@ class World:
             f.write(content)
         if self.unpriv:
             os.chown(self.kpath, NOBODY, NOBODY)       # the user owns its key file (an existing file must be writable for it - and still must not be written)
-        os.chmod(self.kpath, 0o000 if kind == "unreadable" else 0o644)
+        # unreadable: no permission at all, or (every other behaviour) write-only - a file the user cannot read but could overwrite
+        os.chmod(self.kpath, (0o200 if self.idx % 2 else 0o000) if kind == "unreadable" else 0o644)
 
     def snapshot(self):
         """(type, bytes, mode) of what is at the key path."""
@@ -258,6 +259,9 @@ def run(tier):
     t = common.run_tlc("KeyFileMC", "KeyFileMC.cfg", timeout=1500, files={"KeyFileParams.tla": "---- MODULE KeyFileParams ----\nMaxRuns == %d\n====\n" % maxruns})
     if not t.ok:
         raise common.Infra("TLC on KeyFile failed: %s\n%s" % (t.violation, t.out[-1200:]))
+    # beyond the bound: KInv (spec/proofs/KeyFileProofs.tla) is inductive for KeyFile.tla - any number of runs, any environment
+    # change between runs - and implies KeyBeforeCiphertext, UnusableRefused, SuccessHasKey; NeverOverwrite / CreateOnce hold of every step
+    obligations = common.run_tlapm("KeyFileProofs")
     seen, behaviours = set(), []
     for r in t.records:
         k = json.dumps(r["hist"], sort_keys=True)
@@ -392,6 +396,9 @@ def run(tier):
         v.spec_drift({"trace_of": owners[ti], "rejected_at_event": ei, "event": ev, "trace": traces[ti]})
     shutil.rmtree(root, ignore_errors=True)
     v.cov.update({"states": t.distinct + tstates, "transitions": t.generated, "traces_validated_against_impl": acc, "traces_rejected": len(rej),
+                  "unbounded_proof": {"module": "spec/proofs/KeyFileProofs.tla", "checker": "tlapm", "obligations_proved": obligations,
+                                      "theorems": ["InitK", "StepK (KInv is inductive for KeyFileNext, any number of runs)",
+                                                   "KInv => KeyBeforeCiphertext /\\ UnusableRefused /\\ SuccessHasKey", "NeverOverwriteStep", "CreateOnceStep"]},
                   "exhaustive": total_behaviours <= 9000, "behaviours_replayed": len(behaviours), "behaviours_of_model": total_behaviours, "runs_per_behaviour": maxruns, "generated_keys_seen": len(generated),
                   "ciphertexts_decrypted": len(to_decrypt), "unprivileged_runs": unpriv,
                   "initial_states": ["absent", "valid", "validNL", "validLink", "empty", "short", "long", "nonb64", "dir", "unreadable", "noparent"],
